@@ -1,4 +1,4 @@
-(** C19: invariants and proofs for the stepTo protocol model (C19_Model.v). *)
+(** C19 / C21: invariants and proofs for the stepTo protocol model (C19_Model.v). *)
 From Coq Require Import QArith List Bool Arith Lqa Lia.
 Require Import C19_Model.
 Import ListNotations.
@@ -223,18 +223,20 @@ Qed.
 
 (** ---------------------------------------------------------------------------------------------
     request sequences *)
-Fixpoint reqs_ok (c:cfg) (s:ist) (reqs:list req) (orc:list outcome) : Prop :=
+Fixpoint reqs_sat (P:ist -> Q -> Q -> Prop) (c:cfg) (s:ist) (reqs:list req) (orc:list outcome) : Prop :=
   match reqs with
   | [] => True
-  | Reinit l t :: rs => reqs_ok c (reinit s l t) rs orc
+  | Reinit l t :: rs => reqs_sat P c (reinit s l t) rs orc
   | StepTo r sc :: rs =>
-      req_ok s r sc /\
+      P s r sc /\
       match stepTo c s r sc orc with
-      | Ok (st, s', orc', us) => Forall oracle_ok us /\ reqs_ok c s' rs orc'
-      | Refused => reqs_ok c s rs orc
+      | Ok (st, s', orc', us) => Forall oracle_ok us /\ reqs_sat P c s' rs orc'
+      | Refused => reqs_sat P c s rs orc
       | _ => True
       end
   end.
+(** every request satisfies [req_ok] in the state it is issued in, and every oracle answer used meets the contract *)
+Definition reqs_ok := reqs_sat req_ok.
 
 Definition call_ok (c:cfg) (x:callrec) : Prop :=
   match cr_res x with
@@ -250,7 +252,7 @@ Proof. unfold reinit. destruct l, t; fin. Qed.
 
 Lemma run_all_ok c : forall reqs s orc, Inv c s -> reqs_ok c s reqs orc -> Forall (call_ok c) (run c s reqs orc).
 Proof.
-  induction reqs as [|[r sc|l t] rs IH]; intros s orc HI HR; simpl in *; auto.
+  unfold reqs_ok; induction reqs as [|[r sc|l t] rs IH]; intros s orc HI HR; simpl in *; auto.
   - destruct HR as [HR1 HR2].
     destruct (stepTo c s r sc orc) as [[[[st s'] orc'] us]| | |] eqn:E.
     + destruct HR2 as [HU HR2]. pose proof (stepTo_spec _ _ _ _ _ _ _ _ _ E HI HR1 HU) as P.
@@ -272,7 +274,7 @@ Fixpoint nondecreasing (l:list Q) : Prop :=
 Lemma run_times_ge c : forall reqs s orc, Inv c s -> reqs_ok c s reqs orc ->
   Forall (fun t => tState s <= t) (ret_times (run c s reqs orc)) /\ nondecreasing (ret_times (run c s reqs orc)).
 Proof.
-  induction reqs as [|[r sc|l t] rs IH]; intros s orc HI HR; simpl in *; auto.
+  unfold reqs_ok; induction reqs as [|[r sc|l t] rs IH]; intros s orc HI HR; simpl in *; auto.
   - destruct HR as [HR1 HR2].
     destruct (stepTo c s r sc orc) as [[[[st s'] orc'] us]| | |] eqn:E; simpl; auto.
     + destruct HR2 as [HU HR2]. pose proof (stepTo_spec _ _ _ _ _ _ _ _ _ E HI HR1 HU) as P.
@@ -339,3 +341,309 @@ Proof.
   intros f Hf. rewrite Hf in A2. lra.
 Qed.
 End Clauses.
+
+(** ---------------------------------------------------------------------------------------------
+    EndOfSimulation is returned at most once, and afterwards stepping is refused (no oracle contract and
+    no request hypothesis needed; only: the integrator is not re-started by reinitialize(stage<Report)
+    after the end -- the documentation asks for initialize() in that case) *)
+Lemma switch_startCI c report sched steps s :
+  match switch c report sched steps s with
+  | SwReturn st s' => startCI s' = startCI s /\ (st = EndOfSimulation -> comm_st s' = FinalReturned)
+  | SwAdvance s' => startCI s' = startCI s
+  | SwRefused => True
+  end.
+Proof.
+  unfold switch, after_report. destruct (comm_st s); simpl;
+  repeat match goal with |- context[if ?b then _ else _] => destruct b; simpl end; auto; split; auto; discriminate.
+Qed.
+
+Lemma loop_eos c report sched tMax : forall orc steps s st s' orc' us,
+  loop c report sched tMax steps s orc = Ok (st, s', orc', us) ->
+  startCI s' = startCI s /\ (st = EndOfSimulation -> comm_st s' = FinalReturned).
+Proof.
+  induction orc as [|o orc IH]; intros steps s st s' orc' us H; rewrite loop_eq in H;
+  pose proof (switch_startCI c report sched steps s) as SS;
+  destruct (switch c report sched steps s) as [st0 s0| |s0]; try discriminate.
+  - inversion H; subst; auto.
+  - destruct (qeq (tState s0) report); [inversion H; subst; split; auto; discriminate|].
+    destruct (qeq (tState s0) sched); [inversion H; subst; split; auto; discriminate|].
+    destruct (qle tMax (tAdv s0)); discriminate.
+  - inversion H; subst; auto.
+  - destruct (qeq (tState s0) report); [inversion H; subst; split; auto; discriminate|].
+    destruct (qeq (tState s0) sched); [inversion H; subst; split; auto; discriminate|].
+    destruct (qle tMax (tAdv s0)); [discriminate|].
+    destruct (loop c report sched tMax (S steps) (after_step s0 o) orc) as [[[[st2 s2] rest] us2]| | |] eqn:EL; try discriminate.
+    inversion H; subst. destruct (IH _ _ _ _ _ _ EL) as [A B]. split; auto.
+    rewrite A. unfold after_step. destruct (ev o) as [[lo hi]|]; simpl; auto.
+Qed.
+
+Definition no_restart (reqs:list req) : Prop :=
+  Forall (fun r => match r with Reinit true _ => False | _ => True end) reqs.
+Definition is_refused (x:callrec) : Prop := cr_res x = Refused.
+Definition is_eos (x:callrec) : Prop := exists s' us, cr_res x = Ok (EndOfSimulation, s', us).
+Fixpoint eos_then_refused (l:list callrec) : Prop :=
+  match l with [] => True | x :: tl => (is_eos x -> Forall is_refused tl) /\ eos_then_refused tl end.
+
+Lemma final_refused c : forall reqs s orc, comm_st s = FinalReturned -> startCI s = false -> no_restart reqs ->
+  Forall is_refused (run c s reqs orc).
+Proof.
+  induction reqs as [|[r sc|l t] rs IH]; intros s orc HF HC HN; simpl; auto; inversion HN; subst.
+  - unfold stepTo. rewrite HC. destruct orc; simpl; unfold switch; rewrite HF; constructor; auto; reflexivity.
+  - destruct l; [contradiction|]. apply IH; auto; unfold reinit; destruct t; simpl; auto.
+Qed.
+
+Lemma end_of_simulation_once_then_refused c : forall reqs s orc, no_restart reqs ->
+  eos_then_refused (run c s reqs orc).
+Proof.
+  induction reqs as [|[r sc|l t] rs IH]; intros s orc HN; simpl; auto; inversion HN; subst.
+  - destruct (stepTo c s r sc orc) as [[[[st s'] orc'] us]| | |] eqn:E; simpl.
+    + split; [|apply IH; auto]. intros (s2 & us2 & Heq). simpl in Heq. inversion Heq; subst.
+      unfold stepTo in E. destruct (startCI s) eqn:Eci; [inversion E|].
+      destruct (loop_eos _ _ _ _ _ _ _ _ _ _ _ E) as [A B]. apply final_refused; auto. congruence.
+    + split; [|apply IH; auto]. intros (s2 & us2 & Heq). discriminate.
+    + split; auto.
+    + split; auto.
+  - apply IH; auto.
+Qed.
+
+(** a refused call is one made after the end was reported or after a handler asked for termination *)
+Lemma refused_only_after_final c s r sc orc : stepTo c s r sc orc = Refused -> comm_st s = FinalReturned /\ startCI s = false.
+Proof.
+  unfold stepTo. destruct (startCI s); [discriminate|]. intros H. split; auto.
+  revert H. generalize (tMaxOf c r sc) as tM. generalize 0%nat as steps. revert s.
+  induction orc as [|o orc IH]; intros s steps tM H; rewrite loop_eq in H; unfold switch, after_report in H;
+  destruct (comm_st s) eqn:Ec; auto; exfalso;
+  repeat match type of H with context[if ?b then _ else _] => destruct b; try discriminate end;
+  try discriminate;
+  match type of H with context[loop ?a ?b ?cc ?d ?e ?f orc] =>
+    destruct (loop a b cc d e f orc) as [[[[? ?] ?] ?]| | |] eqn:EL; try discriminate;
+    apply IH in EL; unfold after_step in EL; destruct (ev o) as [[? ?]|]; simpl in EL; discriminate end.
+Qed.
+
+(** ---------------------------------------------------------------------------------------------
+    Boolean versions of the request hypotheses and of the contract, for the concrete witnesses below *)
+Lemma oracle_okb_sound u : oracle_okb u = true -> oracle_ok u.
+Proof.
+  unfold oracle_okb, oracle_ok. destruct (ev (u_o u)) as [[lo hi]|]; intros H.
+  - apply andb_prop in H. destruct H as [H H5]. apply andb_prop in H. destruct H as [H1 H2].
+    apply andb_prop in H5. destruct H5 as [H5 H6]. apply andb_prop in H5. destruct H5 as [H5 H7].
+    apply andb_prop in H5. destruct H5 as [H3 H4]. b2p. repeat split; auto.
+    intros [A B]. apply negb_true_iff in H6. apply andb_false_iff in H6. destruct H6; b2p; lra.
+  - apply andb_prop in H. destruct H as [H _]. apply andb_prop in H. destruct H as [H1 H2]. b2p. auto.
+Qed.
+
+Fixpoint reqs_satb (Pb:ist -> Q -> Q -> bool) (c:cfg) (s:ist) (reqs:list req) (orc:list outcome) : bool :=
+  match reqs with
+  | [] => true
+  | Reinit l t :: rs => reqs_satb Pb c (reinit s l t) rs orc
+  | StepTo r sc :: rs =>
+      Pb s r sc &&
+      match stepTo c s r sc orc with
+      | Ok (st, s', orc', us) => forallb oracle_okb us && reqs_satb Pb c s' rs orc'
+      | Refused => reqs_satb Pb c s rs orc
+      | _ => true
+      end
+  end.
+
+Lemma reqs_satb_sound (P:ist -> Q -> Q -> Prop) Pb c :
+  (forall s r sc, Pb s r sc = true -> P s r sc) ->
+  forall reqs s orc, reqs_satb Pb c s reqs orc = true -> reqs_sat P c s reqs orc.
+Proof.
+  intros HP. induction reqs as [|[r sc|l t] rs IH]; intros s orc H; simpl in *; auto.
+  apply andb_prop in H. destruct H as [H1 H2]. split; [apply HP; auto|].
+  destruct (stepTo c s r sc orc) as [[[[st s'] orc'] us]| | |]; auto.
+  apply andb_prop in H2. destruct H2 as [H2 H3]. split; [|apply IH; auto].
+  rewrite forallb_forall in H2. apply Forall_forall. intros u Hu. apply oracle_okb_sound; auto.
+Qed.
+
+Definition req_okb (s:ist) (report sched:Q) : bool :=
+  qle (tState s) report && qle (tAdv s) sched &&
+  (startCI s || negb (match comm_st s with StepWithEvent => true | _ => false end)
+   || negb (qlt (tLow s) report && qlt report (tHigh s))).
+Lemma req_okb_sound s r sc : req_okb s r sc = true -> req_ok s r sc.
+Proof.
+  unfold req_okb, req_ok. intros H. apply andb_prop in H. destruct H as [H H3]. apply andb_prop in H. destruct H as [H1 H2].
+  b2p. repeat split; auto. intros Hc He [A B]. rewrite Hc, He in H3. simpl in H3.
+  apply negb_true_iff in H3. apply andb_false_iff in H3. destruct H3; b2p; lra.
+Qed.
+
+Lemma Inv_init c t : final_le c t -> Inv c (init_state t).
+Proof. unfold Inv, init_state, tState; simpl. intros H. repeat split; intros; try discriminate; auto; lra. Qed.
+
+(** ---------------------------------------------------------------------------------------------
+    Refutations: the two request hypotheses of [req_ok] beyond the documented precondition are needed. *)
+(** the documented precondition only: report and scheduled time not earlier than the current time *)
+Definition req_doc (s:ist) (report sched:Q) : Prop := tState s <= report /\ tState s <= sched.
+Definition req_docb (s:ist) (report sched:Q) : bool := qle (tState s) report && qle (tState s) sched.
+(** [req_ok] without the clause about windows localized by an earlier call *)
+Definition req_nowin (s:ist) (report sched:Q) : Prop := tState s <= report /\ tAdv s <= sched.
+Definition req_nowinb (s:ist) (report sched:Q) : bool := qle (tState s) report && qle (tAdv s) sched.
+Lemma req_docb_sound s r sc : req_docb s r sc = true -> req_doc s r sc.
+Proof. unfold req_docb, req_doc. intros H. apply andb_prop in H. destruct H. b2p. auto. Qed.
+Lemma req_nowinb_sound s r sc : req_nowinb s r sc = true -> req_nowin s r sc.
+Proof. unfold req_nowinb, req_nowin. intros H. apply andb_prop in H. destruct H. b2p. auto. Qed.
+
+Definition cfg_plain : cfg :=
+  {| finalT := None; allowInterp := true; everyStep := false; stepLimit := None; projInterp := true |}.
+
+(** DESIGN 7.11 (RungeKuttaMerson on a pendulum): stepTo(1,10) leaves the advanced state at 1.017473; then
+    stepTo(1.008737, 1.004368) returns ReachedReportTime at 1.008737, later than the pending scheduled event,
+    with the advanced state beyond it. *)
+Definition w711_reqs : list req := [StepTo 1 10; StepTo 1 10; StepTo (1008737#1000000) (1004368#1000000)].
+Definition w711_orc : list outcome := [{| t1 := 1017473#1000000; ev := None; proj := true |}].
+Definition late_report (x:callrec) : bool :=
+  match cr_res x with
+  | Ok (ReachedReportTime, s', _) => qlt (cr_sched x) (tState s') && qlt (cr_sched x) (tAdv s')
+  | _ => false
+  end.
+
+Lemma returned_time_le_earliest_pending_refuted :
+  exists c s0 reqs orc, Inv c s0 /\ reqs_sat req_doc c s0 reqs orc /\
+    exists x s' us, In x (run c s0 reqs orc) /\ cr_res x = Ok (ReachedReportTime, s', us) /\
+       cr_sched x < tState s' /\ cr_sched x < tAdv s'.
+Proof.
+  exists cfg_plain, (init_state 0), w711_reqs, w711_orc. split; [|split].
+  - apply Inv_init. exact I.
+  - apply (reqs_satb_sound req_doc req_docb cfg_plain req_docb_sound). vm_compute. reflexivity.
+  - assert (E: existsb late_report (run cfg_plain (init_state 0) w711_reqs w711_orc) = true) by (vm_compute; reflexivity).
+    apply existsb_exists in E. destruct E as (x & Hin & Hx). exists x. unfold late_report in Hx.
+    destruct (cr_res x) as [[[st s'] us]| | |]; try discriminate. destruct st; try discriminate.
+    apply andb_prop in Hx. destruct Hx. b2p. exists s', us. auto.
+Qed.
+
+(** A report time may be placed strictly inside an event window that an earlier call localized but has not
+    reported yet: step [0,0.7] localizes an event to (0.6,0.7] while a report at 0.5 is pending; the report is
+    delivered first; the next call asks for a report at 0.65 and gets ReachedEventTrigger with 0.65 inside. *)
+Definition wwin_reqs : list req := [StepTo 0 100; StepTo (1#2) 100; StepTo (65#100) 100].
+Definition wwin_orc : list outcome := [{| t1 := 7#10; ev := Some (6#10, 7#10); proj := true |}].
+Definition report_in_window (x:callrec) : bool :=
+  match cr_res x with
+  | Ok (ReachedEventTrigger, s', _) => qlt (tLow s') (cr_report x) && qlt (cr_report x) (tHigh s')
+  | _ => false
+  end.
+
+Lemma no_pending_time_inside_event_window_refuted :
+  exists c s0 reqs orc, Inv c s0 /\ reqs_sat req_nowin c s0 reqs orc /\
+    exists x s' us, In x (run c s0 reqs orc) /\ cr_res x = Ok (ReachedEventTrigger, s', us) /\
+       tLow s' < cr_report x /\ cr_report x < tHigh s'.
+Proof.
+  exists cfg_plain, (init_state 0), wwin_reqs, wwin_orc. split; [|split].
+  - apply Inv_init. exact I.
+  - apply (reqs_satb_sound req_nowin req_nowinb cfg_plain req_nowinb_sound). vm_compute. reflexivity.
+  - assert (E: existsb report_in_window (run cfg_plain (init_state 0) wwin_reqs wwin_orc) = true) by (vm_compute; reflexivity).
+    apply existsb_exists in E. destruct E as (x & Hin & Hx). exists x. unfold report_in_window in Hx.
+    destruct (cr_res x) as [[[st s'] us]| | |]; try discriminate. destruct st; try discriminate.
+    apply andb_prop in Hx. destruct Hx. b2p. exists s', us. auto.
+Qed.
+
+(** ---------------------------------------------------------------------------------------------
+    Non-vacuity: a request script satisfying every hypothesis of the clause theorems and exercising
+    start-of-interval, an interpolated report, a localized event, a scheduled stop, the final-time stop,
+    EndOfSimulation and the refusal afterwards. *)
+Definition ex_cfg : cfg :=
+  {| finalT := Some 2; allowInterp := true; everyStep := false; stepLimit := None; projInterp := true |}.
+Definition ex_reqs : list req :=
+  [StepTo 0 1; StepTo (1#2) 1; StepTo (9#10) 1; Reinit true false; StepTo (9#10) 1; StepTo (9#10) 1;
+   StepTo 3 1; StepTo 3 5; StepTo 3 5; StepTo 3 5].
+Definition ex_orc : list outcome :=
+  [{| t1 := 7#10; ev := Some (6#10, 7#10); proj := true |}; {| t1 := 1; ev := None; proj := true |};
+   {| t1 := 2; ev := None; proj := true |}].
+Definition status_eqb (a b:status) : bool :=
+  match a, b with
+  | ReachedReportTime, ReachedReportTime | ReachedEventTrigger, ReachedEventTrigger
+  | ReachedScheduledEvent, ReachedScheduledEvent | TimeHasAdvanced, TimeHasAdvanced
+  | ReachedStepLimit, ReachedStepLimit | EndOfSimulation, EndOfSimulation
+  | StartOfContinuousInterval, StartOfContinuousInterval => true
+  | _, _ => false
+  end.
+Definition statuses (l:list callrec) : list (option status) :=
+  map (fun x => match cr_res x with Ok (st,_,_) => Some st | _ => None end) l.
+
+Lemma clause_hypotheses_satisfiable :
+  Inv ex_cfg (init_state 0) /\ reqs_ok ex_cfg (init_state 0) ex_reqs ex_orc /\ no_restart (skipn 4 ex_reqs) /\
+  statuses (run ex_cfg (init_state 0) ex_reqs ex_orc) =
+    [Some StartOfContinuousInterval; Some ReachedReportTime; Some ReachedEventTrigger; Some StartOfContinuousInterval;
+     Some ReachedReportTime; Some ReachedScheduledEvent; Some ReachedReportTime; Some EndOfSimulation; None].
+Proof.
+  split; [|split; [|split]].
+  - apply Inv_init. unfold final_le; simpl. lra.
+  - apply (reqs_satb_sound req_ok req_okb ex_cfg req_okb_sound). vm_compute. reflexivity.
+  - simpl. repeat constructor.
+  - vm_compute. reflexivity.
+Qed.
+
+(** ---------------------------------------------------------------------------------------------
+    C21 (partial): which state a call returns, in terms of projection.  [advProj]/[proj] say that the step
+    ending at the advanced state left attemptDAEStep through its projecting exit; that projection achieves its
+    tolerance is C09's contract and is not part of this model. *)
+Lemma switch_advProj c report sched steps s :
+  match switch c report sched steps s with
+  | SwReturn _ s' | SwAdvance s' => advProj s' = advProj s
+  | SwRefused => True
+  end.
+Proof.
+  unfold switch, after_report. destruct (comm_st s); simpl;
+  repeat match goal with |- context[if ?b then _ else _] => destruct b; simpl end; auto.
+Qed.
+
+Lemma loop_advProj c report sched tMax : forall orc steps s st s' orc' us,
+  loop c report sched tMax steps s orc = Ok (st, s', orc', us) ->
+  advProj s = true -> Forall (fun o => proj o = true) orc ->
+  advProj s' = true /\ Forall (fun o => proj o = true) orc'.
+Proof.
+  induction orc as [|o orc IH]; intros steps s st s' orc' us H HA HO; rewrite loop_eq in H;
+  pose proof (switch_advProj c report sched steps s) as SS;
+  destruct (switch c report sched steps s) as [st0 s0| |s0]; try discriminate.
+  - inversion H; subst; split; auto; congruence.
+  - destruct (qeq (tState s0) report); [inversion H; subst; split; auto; congruence|].
+    destruct (qeq (tState s0) sched); [inversion H; subst; split; auto; congruence|].
+    destruct (qle tMax (tAdv s0)); discriminate.
+  - inversion H; subst; split; auto; congruence.
+  - destruct (qeq (tState s0) report); [inversion H; subst; split; auto; congruence|].
+    destruct (qeq (tState s0) sched); [inversion H; subst; split; auto; congruence|].
+    destruct (qle tMax (tAdv s0)); [discriminate|].
+    destruct (loop c report sched tMax (S steps) (after_step s0 o) orc) as [[[[st2 s2] rest] us2]| | |] eqn:EL; try discriminate.
+    inversion H; subst. inversion HO; subst. eapply IH; eauto.
+    unfold after_step. destruct (ev o) as [[lo hi]|]; simpl; auto.
+Qed.
+
+Definition proj_ok (c:cfg) (x:callrec) : Prop :=
+  match cr_res x with
+  | Ok (_, s', _) => (interp s' = false -> advProj s' = true) /\ (interp s' = true -> intProj s' = projInterp c)
+  | _ => True
+  end.
+
+Lemma every_returned_state_projected_partial c : forall reqs s orc,
+  Inv c s -> reqs_ok c s reqs orc -> advProj s = true -> Forall (fun o => proj o = true) orc ->
+  Forall (proj_ok c) (run c s reqs orc).
+Proof.
+  unfold reqs_ok; induction reqs as [|[r sc|l t] rs IH]; intros s orc HI HR HA HO; simpl in *; auto.
+  - destruct HR as [HR1 HR2].
+    destruct (stepTo c s r sc orc) as [[[[st s'] orc'] us]| | |] eqn:E.
+    + destruct HR2 as [HU HR2]. pose proof (stepTo_spec _ _ _ _ _ _ _ _ _ E HI HR1 HU) as P.
+      assert (HP: advProj s' = true /\ Forall (fun o => proj o = true) orc').
+      { unfold stepTo in E. destruct (startCI s); [inversion E; subst; simpl; auto|]. eapply loop_advProj; eauto. }
+      destruct HP as [HP1 HP2]. destruct P as (PI & _).
+      constructor; [unfold proj_ok; simpl; split; auto; unfold Inv in PI; tauto|]. apply IH; auto.
+    + constructor; [exact I|]. apply IH; auto.
+    + constructor; [exact I|constructor].
+    + constructor; [exact I|constructor].
+  - apply IH; auto. apply reinit_Inv; auto. unfold reinit. destruct l, t; simpl; auto.
+Qed.
+
+Lemma interp_without_projection_only_when_disabled c reqs s orc x st s' us :
+  Inv c s -> reqs_ok c s reqs orc -> In x (run c s reqs orc) -> cr_res x = Ok (st, s', us) ->
+  interp s' = true -> intProj s' = false -> projInterp c = false.
+Proof.
+  intros HI HR Hin E Hi Hp. pose proof (run_all_ok c reqs s orc HI HR) as A. rewrite Forall_forall in A.
+  specialize (A x Hin). unfold call_ok in A. rewrite E in A. destruct A as (PI & _). unfold Inv in PI.
+  destruct PI as (_ & _ & _ & _ & P & _). rewrite <- (P Hi). exact Hp.
+Qed.
+
+Lemma c21_hypotheses_satisfiable :
+  Inv ex_cfg (init_state 0) /\ reqs_ok ex_cfg (init_state 0) ex_reqs ex_orc /\ advProj (init_state 0) = true /\
+  Forall (fun o => proj o = true) ex_orc.
+Proof.
+  destruct clause_hypotheses_satisfiable as (A & B & _). split; [exact A|]. split; [exact B|]. split; [reflexivity|].
+  unfold ex_orc. repeat constructor.
+Qed.
